@@ -13,6 +13,10 @@ pub open spec fn ref_bytes(n: int, long: bool) -> Seq<u8> {
 pub open spec fn width_of(ct: ColumnType, long: bool) -> int {
     match ct { ColumnType::Int16 => 2, ColumnType::Int32 => 4, ColumnType::Str(_) => if long { 3 } else { 2 } }
 }
+// a string reference that does not fit two-byte mode
+pub open spec fn wide_ref(v: ValueRef, long: bool) -> bool {
+    match v { ValueRef::Str(r) => !long && sref_num(r) > 0xffff, _ => false }
+}
 // a cell value of the column's kind
 pub open spec fn type_ok(ct: ColumnType, v: ValueRef) -> bool {
     match ct {
